@@ -1306,7 +1306,7 @@ pub fn run_tm_case(c: &tmw::Case) -> CaseResult {
         if pick != 0 {
             *res.hist.entry(format!("{}:{}:minted", TM_VARIANT, st.op.kind())).or_insert(0) += 1;
         }
-        steps_coq.push(format!("({}, {}, {})", st.at, tmw::op_coq(&st.op, pick, &pre.cw2), tmw::obs_coq(ok, &post, tmw::cw2_after(&st.op, &post).as_ref())));
+        steps_coq.push(format!("({}, {}, {})", st.at, tmw::op_coq(&st.op, if ok { pick } else { pre.positions.first().map(|p| p.1 as u64).unwrap_or(0) }, &pre.cw2), tmw::obs_coq(ok, &post, tmw::cw2_after(&st.op, &post).as_ref())));
         let mut bad = |k: &str, what: String| res.violations.push((format!("C01:tm-{}", k), format!("{}: {:?}: {}", TM_VARIANT, st.op, what)));
         if !ok {
             if pre != post || d0 != d1 {
